@@ -221,12 +221,13 @@ Proof.
   - intros n Hn.
     assert (H : n = 0 \/ n = 1 \/ n = 2 \/ n = 3 \/ n = 4 \/ n = 5 \/ n = 6 \/ n = 7) by lia.
     repeat (destruct H as [H|H]; [subst n; repeat split; reflexivity|]); subst n; repeat split; reflexivity.
-  - intros n r g b; repeat split; reflexivity.
-  - intros p l; cbn. now rewrite <- !app_assoc.
+  - intros n r g b; repeat split; unfold print_sgr; cbn [map join];
+      repeat (rewrite <- app_assoc; cbn [app]); reflexivity.
+  - intros p l; cbn; rewrite <- ?app_assoc; reflexivity.
 Qed.
 Print Assumptions C18_constants_match.
 
-(* parseSGR (cell.go) and (*Model).sgr (widgets/term/sgr.go) are the same text up to the renaming
+(* parseSGR (cell.go) and Model.sgr (widgets/term/sgr.go) are the same text up to the renaming
    vt.cursor.X -> style.X, vaxis.Y -> Y: digests of the two printed bodies, translated on every
    run.  This is what licenses the single model definition sgr_run for both consumers. *)
 Theorem C18_term_sgr_is_a_copy_of_parseSGR : digest_term_sgr = digest_parseSGR.
